@@ -591,7 +591,7 @@ ssize_t k_read(int fd, void *buf, size_t n) {
     if (n == 0) return 0;
     if (chance_pm(CH_EINTR, K.eintr_pm)) { S.eintrs++; errno = EINTR; return -1; }
     if (f->kind == F_STREAM) {
-        if (f->rx.len == 0 && !f->peer_closed) { S.blocked_reads++; block_on(rdy_stream_read, f, "R"); }
+        if (f->rx.len == 0 && !f->peer_closed) { if (f->nonblock) { errno = EAGAIN; return -1; } S.blocked_reads++; block_on(rdy_stream_read, f, "R"); }
         if (f->rx.len == 0) {
             if (f->reset) { f->reset = false; S.econnresets++; errno = ECONNRESET; return -1; }
             S.eofs++; return 0;
@@ -603,7 +603,7 @@ ssize_t k_read(int fd, void *buf, size_t n) {
         return (ssize_t)k;
     } else {
         Pipe *p = f->pipe;
-        if (p->buf.len == 0 && p->writers > 0) { S.blocked_reads++; block_on(rdy_pipe_read, p, "R"); }
+        if (p->buf.len == 0 && p->writers > 0) { if (f->nonblock) { errno = EAGAIN; return -1; } S.blocked_reads++; block_on(rdy_pipe_read, p, "R"); }
         if (p->buf.len == 0) { S.eofs++; return 0; }
         size_t k = n < p->buf.len ? n : p->buf.len;
         k = shorten(k, K.short_read_pm, &S.short_reads);
@@ -677,14 +677,14 @@ ssize_t k_write(int fd, const void *buf, size_t n) {
             if (f->wr_dead || !f->peer || f->shut_wr) { buf_free(&repl); if (done) return (ssize_t)done; return epipe(); }
             SimFile *d = f->peer;
             room = d->rx.len < d->cap_bytes ? d->cap_bytes - d->rx.len : 0;
-            if (!room) { S.blocked_writes++; block_on(rdy_stream_write, f, "W"); continue; }
+            if (!room) { if (f->nonblock) { buf_free(&repl); if (done) return (ssize_t)done; errno = EAGAIN; return -1; } S.blocked_writes++; block_on(rdy_stream_write, f, "W"); continue; }
             size_t k = limit - done < room ? limit - done : room;
             buf_put(&d->rx, src + done, k); done += k;
         } else {
             Pipe *p = f->pipe;
             if (p->readers == 0) { buf_free(&repl); if (done) return (ssize_t)done; return epipe(); }
             room = p->buf.len < p->cap ? p->cap - p->buf.len : 0;
-            if (!room) { S.blocked_writes++; block_on(rdy_pipe_write, p, "W"); continue; }
+            if (!room) { if (f->nonblock) { buf_free(&repl); if (done) return (ssize_t)done; errno = EAGAIN; return -1; } S.blocked_writes++; block_on(rdy_pipe_write, p, "W"); continue; }
             size_t k = limit - done < room ? limit - done : room;
             buf_put(&p->buf, src + done, k); done += k;
         }
@@ -765,7 +765,7 @@ int k_connect_path(int fd, const char *path) {
         if (!nd) { S.conn_refused++; errno = ENOENT; return -1; }
         if (nd->kind != 1 || !nd->listener) { S.conn_refused++; errno = ECONNREFUSED; return -1; }
         SimFile *l = nd->listener;
-        if (l->naccept > l->backlog) { S.backlog_waits++; block_on(rdy_connect, nd, "C"); continue; }
+        if (l->naccept > l->backlog) { if (f->nonblock) { errno = EAGAIN; return -1; } S.backlog_waits++; block_on(rdy_connect, nd, "C"); continue; }
         SimFile *srv = file_new(F_STREAM);
         srv->cap_bytes = f->cap_bytes = (size_t)K.sock_cap;
         f->kind = F_STREAM; f->peer = srv; srv->peer = f;
@@ -779,7 +779,7 @@ static int k_accept(int fd) {
     SimFile *f = fd_get(fd);
     if (!f || f->kind != F_LISTEN) { errno = EINVAL; return -1; }
     sim_yield("a");
-    if (!f->naccept) block_on(rdy_accept, f, "A");
+    if (!f->naccept) { if (f->nonblock) { errno = EAGAIN; return -1; } block_on(rdy_accept, f, "A"); }
     SimFile *s = f->acceptq[0];
     memmove(f->acceptq, f->acceptq + 1, (size_t)(--f->naccept) * sizeof(SimFile *));
     int nfd = fd_alloc(cur->p, s);
@@ -1157,4 +1157,130 @@ SimProc *sim_spawn_child_fn(const char *role, void *(*fn)(void *), void *arg) {
     SimProc *p = sim_spawn_fn(role, fn, arg, now_us);
     p->ppid = cur->p->pid;
     return p;
+}
+
+/* ---------------- neighbouring calls, so that a refactoring (write -> writev, poll -> select, pipe -> pipe2 ...) stays
+ * inside the simulated kernel instead of falling through to the real one (DESIGN.md 2.8) ---------------- */
+#include <sys/uio.h>
+#include <sys/select.h>
+ssize_t __real_writev(int, const struct iovec *, int);
+ssize_t __wrap_writev(int fd, const struct iovec *iov, int n) {
+    if (!cur) return __real_writev(fd, iov, n);
+    Buf b = {0}; for (int i = 0; i < n; i++) buf_put(&b, iov[i].iov_base, iov[i].iov_len);
+    ssize_t r = k_write(fd, b.d, b.len); buf_free(&b); return r;
+}
+ssize_t __real_readv(int, const struct iovec *, int);
+ssize_t __wrap_readv(int fd, const struct iovec *iov, int n) {
+    if (!cur) return __real_readv(fd, iov, n);
+    size_t tot = 0; for (int i = 0; i < n; i++) tot += iov[i].iov_len;
+    uint8_t *tmp = malloc(tot ? tot : 1); ssize_t r = k_read(fd, tmp, tot);
+    if (r > 0) { size_t off = 0; for (int i = 0; i < n && off < (size_t)r; i++) { size_t k2 = iov[i].iov_len < (size_t)r - off ? iov[i].iov_len : (size_t)r - off; memcpy(iov[i].iov_base, tmp + off, k2); off += k2; } }
+    free(tmp); return r;
+}
+int __real_pipe2(int[2], int);
+int __wrap_pipe2(int fds[2], int flags) {
+    if (!cur) return __real_pipe2(fds, flags);
+    int r = k_pipe(fds);
+    if (r == 0 && (flags & O_NONBLOCK)) { cur->p->fds[fds[0]]->nonblock = cur->p->fds[fds[1]]->nonblock = true; }
+    return r;
+}
+int __real_accept4(int, struct sockaddr *, socklen_t *, int);
+int __wrap_accept4(int fd, struct sockaddr *a, socklen_t *l, int flags) {
+    if (!cur) return __real_accept4(fd, a, l, flags);
+    int r = k_accept(fd);
+    if (r >= 0 && (flags & SOCK_NONBLOCK)) cur->p->fds[r]->nonblock = true;
+    return r;
+}
+int __real_dup3(int, int, int);
+int __wrap_dup3(int a, int b, int fl) { if (!cur) return __real_dup3(a, b, fl); if (a == b) { errno = EINVAL; return -1; } return k_dup2(a, b); }
+int __real_socketpair(int, int, int, int[2]);
+int __wrap_socketpair(int d, int t, int p, int sv[2]) {
+    if (!cur) return __real_socketpair(d, t, p, sv);
+    SimFile *x = file_new(F_STREAM), *y = file_new(F_STREAM);
+    x->peer = y; y->peer = x; x->cap_bytes = y->cap_bytes = (size_t)K.sock_cap;
+    sv[0] = fd_alloc(cur->p, x); sv[1] = fd_alloc(cur->p, y);
+    return 0;
+}
+int __real_fcntl(int, int, ...);
+int __wrap_fcntl(int fd, int cmd, ...) {
+    va_list ap; va_start(ap, cmd); long arg = va_arg(ap, long); va_end(ap);
+    if (!cur) return __real_fcntl(fd, cmd, arg);
+    SimFile *f = fd_get(fd);
+    if (!f) { errno = EBADF; return -1; }
+    switch (cmd) {
+    case F_GETFD: case F_SETFD: return 0;
+    case F_GETFL: return (f->oflags & O_ACCMODE) | (f->nonblock ? O_NONBLOCK : 0) | ((f->kind == F_STREAM || f->kind == F_SOCK || f->kind == F_LISTEN) ? O_RDWR : 0);
+    case F_SETFL: f->nonblock = (arg & O_NONBLOCK) != 0; return 0;
+    case F_DUPFD: case F_DUPFD_CLOEXEC: return fd_alloc_from(cur->p, f, (int)arg);
+    default: errno = EINVAL; return -1;
+    }
+}
+int __real_select(int, fd_set *, fd_set *, fd_set *, struct timeval *);
+int __wrap_select(int n, fd_set *rd, fd_set *wr, fd_set *ex, struct timeval *tv) {
+    if (!cur) return __real_select(n, rd, wr, ex, tv);
+    struct pollfd p[SIM_MAXFD]; int np = 0;
+    for (int i = 0; i < n && i < SIM_MAXFD; i++) {
+        short ev = 0; if (rd && FD_ISSET(i, rd)) ev |= POLLIN; if (wr && FD_ISSET(i, wr)) ev |= POLLOUT;
+        if (ev) { p[np].fd = i; p[np].events = ev; p[np].revents = 0; np++; }
+    }
+    int r = k_poll(p, (nfds_t)np, tv ? (int)(tv->tv_sec * 1000 + tv->tv_usec / 1000) : -1);
+    if (rd) FD_ZERO(rd); if (wr) FD_ZERO(wr); if (ex) FD_ZERO(ex);
+    int cnt = 0;
+    for (int i = 0; i < np && r > 0; i++) {
+        if (rd && (p[i].revents & (POLLIN | POLLHUP))) { FD_SET(p[i].fd, rd); cnt++; }
+        if (wr && (p[i].revents & POLLOUT)) { FD_SET(p[i].fd, wr); cnt++; }
+    }
+    return r < 0 ? r : cnt;
+}
+off_t __wrap_lseek(int fd, off_t off, int whence) {
+    if (!cur) return __real_lseek(fd, off, whence);
+    SimFile *f = fd_get(fd);
+    if (!f) { errno = EBADF; return -1; }
+    if (f->kind != F_REG || !f->node) { errno = ESPIPE; return -1; }
+    off_t base = whence == SEEK_SET ? 0 : whence == SEEK_CUR ? (off_t)f->pos : (off_t)f->node->data.len;
+    if (base + off < 0) { errno = EINVAL; return -1; }
+    f->pos = (size_t)(base + off); return (off_t)f->pos;
+}
+int __real_fstat(int, struct stat *);
+int __wrap_fstat(int fd, struct stat *st) {
+    if (!cur) return __real_fstat(fd, st);
+    SimFile *f = fd_get(fd);
+    if (!f) { errno = EBADF; return -1; }
+    memset(st, 0, sizeof *st);
+    if (f->kind == F_REG && f->node) { st->st_mode = S_IFREG | 0644; st->st_size = (off_t)f->node->data.len; }
+    else if (f->kind == F_PIPE_R || f->kind == F_PIPE_W) st->st_mode = S_IFIFO | 0600;
+    else if (f->kind == F_STREAM || f->kind == F_SOCK || f->kind == F_LISTEN) st->st_mode = S_IFSOCK | 0600;
+    else st->st_mode = S_IFCHR | 0600;
+    return 0;
+}
+static bool rdy_task_done(SimTask *t) { SimTask *o = t->wait_obj; return o->state == T_DONE || o->state == T_FREE; }
+int __real_pthread_join(pthread_t, void **);
+int __wrap_pthread_join(pthread_t th, void **ret) {
+    if (!cur) return __real_pthread_join(th, ret);
+    SimTask *o = (SimTask *)(uintptr_t)th;
+    sim_yield("j");
+    if (!(o->state == T_DONE || o->state == T_FREE)) block_on(rdy_task_done, o, "J");
+    if (ret) *ret = NULL;
+    return 0;
+}
+int __wrap_pthread_mutex_trylock(pthread_mutex_t *m) {
+    if (!cur) return 0;
+    SimMutex *sm = mutex_get(m);
+    sim_yield("m");
+    if (sm->owner && sm->owner != cur && sm->owner->state != T_DONE && sm->owner->state != T_FREE) return EBUSY;
+    sm->owner = cur; return 0;
+}
+int __real_sigprocmask(int, const sigset_t *, sigset_t *);
+int __wrap_sigprocmask(int how, const sigset_t *s, sigset_t *o) { if (!cur) return __real_sigprocmask(how, s, o); if (o) sigemptyset(o); return 0; }
+int __wrap_pthread_sigmask(int how, const sigset_t *s, sigset_t *o) { (void)how; (void)s; if (o) sigemptyset(o); return 0; }
+pid_t __real_wait(int *);
+pid_t __wrap_wait(int *st) {
+    if (!cur) return __real_wait(st);
+    SimProc *me = img_identity(cur->p);
+    for (;;) {
+        bool any = false;
+        for (int i = 0; i < nprocs; i++) if (procs[i].ppid == me->pid && !procs[i].reaped) { any = true; if (proc_waitable(&procs[i])) return k_waitpid(procs[i].pid, st, 0); }
+        if (!any) { errno = ECHILD; return -1; }
+        sim_sleep_us(10);
+    }
 }
